@@ -24,13 +24,6 @@ def msgOf (k hex : String) : Msg := ⟨if k = "b" then .binary else .text, unhex
 
 def sidOf (tok : String) : Nat := (tok.drop 1).toString.toNat!
 
-/-- the client side of the JSONP form: escaped newlines become `\\\\n`, newlines `\\n` -/
-def jsonpClientEscape : Bytes → Bytes
-  | 92 :: 110 :: rest => 92 :: 92 :: 110 :: jsonpClientEscape rest
-  | 10 :: rest => 92 :: 110 :: jsonpClientEscape rest
-  | b :: rest => b :: jsonpClientEscape rest
-  | [] => []
-
 /-- `url.QueryEscape` -/
 def queryEscape (bs : Bytes) : Bytes :=
   bs.flatMap fun b =>
